@@ -20,6 +20,8 @@ SEED_HINTS = {
 @PRIOR@""",
     "G": """- Earlier rounds already produced the following changes for this property. Do NOT repeat them or close variants of them. This time make it a CONCURRENCY or TIMING mistake: a statement moved across an `await` (state read before the await and used after it, or a flag set after instead of before), a lock / `async with` dropped or narrowed, two tasks or a task and a done-callback that now interleave differently, a waiter that is woken before the state it waits for is written (or never woken on one path), a shared collection mutated while another coroutine iterates it, deadline / timeout / backoff arithmetic (ms vs s, monotonic vs wall clock, a deadline recomputed inside a loop so that it never expires), a retry that now happens once too often or not at all. It must genuinely violate the property's statement and need a specific interleaving or timing to show:
 @PRIOR@""",
+    "H": """- Earlier rounds already produced the following changes for this property. Do NOT repeat them or close variants of them. Otherwise you are free: make whatever change a busy contributor could plausibly land in a pull request -- a refactor that subtly changes semantics, an optimisation that drops a step, a 'fix' for a different problem with a side effect, a clean-up of code that looked redundant but was not. Read the anchor code carefully first and pick the clause of the statement you find easiest to break INVISIBLY (reviewers must be unlikely to notice):
+@PRIOR@""",
 }
 SEED_HINT = None
 
@@ -32,6 +34,17 @@ NEUTRAL_STYLE = ("a third kind of clean-up than simple renames or extract-method
 
 
 NEUTRAL_STYLES = {
+    "S": ("a clean-up pull request as a maintainer would write it, touching TWO OR THREE of the anchor functions (prefer ones that earlier "
+          "clean-ups are unlikely to have touched: small helpers, bookkeeping methods, callbacks, readers/writers of the record formats). Mix "
+          "kinds: turn an `assert cond, msg` into `if not cond: raise AssertionError(msg)` or back; replace tuple unpacking by indexing or the "
+          "reverse; replace `x is None` / `x is not None` ladders by an equivalent early return; `while` <-> `for ... in range(...)` where "
+          "provably equivalent; hoist a repeated sub-expression or cast into a local; split a long function into two private helpers (keeping "
+          "every await and every side effect in the same order); merge two tiny helpers; reorder independent statements or independent "
+          "declarations; replace `dict`/`deque`/`list` idioms by exactly equivalent ones (`d.pop(k, None)` <-> `if k in d: del d[k]`, "
+          "`q[0]` + `q.popleft()` <-> one `popleft()` ONLY when nothing can raise in between); rename locals and private parameters. "
+          "If the property's anchors include Cython sources (.pyx/.pxd) ALSO refactor one cdef function there (hoist a cast into a typed "
+          "local, rename cdef locals, split a `cdef` function into two `cdef inline` helpers, reorder independent statements) and rebuild the "
+          "extension with `cd <worktree> && /venv/bin/python setup.py build_ext --inplace` before running the tests"),
     "R": ("pick TWO OR THREE different kinds of modernising clean-up and apply them to different anchor functions: extract an ASYNC private helper "
           "that contains one of the awaits together with the statements around it (`await self._helper(...)` at the same place; order of effects "
           "and suspension points unchanged); use the walrus operator (`if (x := f()) is not None:`); use `match`/`case` for a dispatch on constants "
@@ -75,7 +88,7 @@ def main():
             for m in sorted(glob.glob(os.path.join(VERIF, "seeded", f"{pid}-*", "meta.json"))):
                 try:
                     mm = json.load(open(m))
-                    prior.append("  * " + " ".join(str(mm.get("summary", "")).split())[:200])
+                    prior.append("  * " + " ".join(str(mm.get("summary", "")).split())[:150])
                 except Exception:
                     pass
             out = out.replace("@HINT@", SEED_HINTS.get(suffix, SEED_HINTS["F"]).replace("@PRIOR@", "\n".join(prior)))
